@@ -311,8 +311,12 @@ def pending_reports(ctx: Ctx):
         if f.cls is None or f.cls.name != "Reporter" or f.name in ("__init__", "flush"):
             continue
         for n_ in ast.walk(f.node):
-            if isinstance(n_, ast.Call) and isinstance(n_.func, ast.Attribute) and n_.func.attr in ("clear", "pop", "remove") and flow.dump(n_.func.value) == "self.reports":
-                ctx.violation("D5", "WMC.writers", f"{f.qualname} removes pending reports", f, n_, why="reports filed but not yet flushed are dropped", construct=f"reports-removed:{f.qualname}")
+            removes = isinstance(n_, ast.Call) and isinstance(n_.func, ast.Attribute) and n_.func.attr in ("clear", "pop", "remove") and flow.dump(n_.func.value) == "self.reports"
+            removes = removes or (isinstance(n_, ast.Delete) and any(isinstance(t, ast.Subscript) and flow.dump(t.value) == "self.reports" for t in n_.targets))
+            removes = removes or (isinstance(n_, ast.Assign) and any(isinstance(t, ast.Subscript) and flow.dump(t.value) == "self.reports" for t in n_.targets))
+            if removes:
+                ctx.violation("D5", "WMC.writers", f"{f.qualname} removes pending reports", f, n_, why="reports filed but not yet flushed are withdrawn: what a flush delivers no longer is "
+                              "everything that was filed since the last one", construct=f"reports-removed:{f.qualname}")
 
 
 def selftest():
